@@ -262,11 +262,23 @@ class Sym:
     def table_lookup(self, g, a): return VStr(code=self.app('LOOKUP_' + g.name.split(':')[1], [a.code], I))
     def str_contains(self, hay, needle): return self.app('CONTAINS', [hay.code, needle.code], B)
     def str_slice(self, v, lo, hi):
-        return VStr(code=self.app(f'SLICE_{lo}_{hi}', [v.code], I))
+        return VStr(code=self.app(f'SLICE_{lo}_{hi}', [v.code], I), sym=('slice', v, lo, hi))
+    HEXDIGITS = '0123456789abcdefABCDEF'
+    def all_chars_in(self, v, alphabet):
+        """every character of the string v is in the literal alphabet (uninterpreted predicate per alphabet)"""
+        return self.app('ALLCHARS_' + str(lit_code(alphabet)), [v.code], B)
     def str_is_float(self, v): return self.app('IS_FLOAT', [v.code], B)
     def str_to_float(self, v): return self.app('TO_FLOAT', [v.code], R)
     def str_is_int_base(self, v, base): return self.app('IS_INT', [v.code, self.i(base)], B)
-    def str_to_int_base(self, v, base): return self.app('TO_INT', [v.code, self.i(base)], I)
+    def str_to_int_base(self, v, base):
+        r = self.app('TO_INT', [v.code, self.i(base)], I)
+        # finite-table lemma (engine D, all 22^2 digit pairs): a two-character slice of a string made of hex digits only
+        # reads as an integer in 0..255 in base 16 (and int() does not raise on it)
+        if v.sym and v.sym[0] == 'slice' and isinstance(v.sym[2], int) and isinstance(v.sym[3], int) and v.sym[3] - v.sym[2] == 2 and v.sym[2] >= 0:
+            base_v = v.sym[1]
+            prem = z3.And(self.all_chars_in(base_v, self.HEXDIGITS), self.str_len(base_v) >= v.sym[3], self.i(base) == 16)
+            self.lfact(None, z3.Implies(prem, z3.And(r >= 0, r <= 255, self.str_is_int_base(v, base))))
+        return r
 
     def str_method(self, o, m, args, p, node):
         from . import symex as sx
